@@ -139,6 +139,11 @@ func (e *G1) Unmarshal(m []byte) (*G1, bool) {
 	e.p.x.SetBytes(m[0*numBytes : 1*numBytes])
 	e.p.y.SetBytes(m[1*numBytes : 2*numBytes])
 
+	if e.p.x.Cmp(p) >= 0 || e.p.y.Cmp(p) >= 0 {
+		// Only the canonical representative of each coordinate is accepted.
+		return nil, false
+	}
+
 	if e.p.x.Sign() == 0 && e.p.y.Sign() == 0 {
 		// This is the point at infinity.
 		e.p.y.SetInt64(1)
@@ -260,6 +265,12 @@ func (e *G2) Unmarshal(m []byte) (*G2, bool) {
 	e.p.x.y.SetBytes(m[1*numBytes : 2*numBytes])
 	e.p.y.x.SetBytes(m[2*numBytes : 3*numBytes])
 	e.p.y.y.SetBytes(m[3*numBytes : 4*numBytes])
+
+	if e.p.x.x.Cmp(p) >= 0 || e.p.x.y.Cmp(p) >= 0 ||
+		e.p.y.x.Cmp(p) >= 0 || e.p.y.y.Cmp(p) >= 0 {
+		// Only the canonical representative of each coordinate is accepted.
+		return nil, false
+	}
 
 	if e.p.x.x.Sign() == 0 &&
 		e.p.x.y.Sign() == 0 &&
